@@ -10,8 +10,6 @@ import (
 
 const pxSrcT = `package PKG
 
-import "strconv"
-
 type T struct {
 	F   int
 	Ref *int
@@ -37,14 +35,25 @@ func With(f func(p *int))  { f(&Counter) }
 func SetM(k string, v int) { M[k] = v }
 func Push(v int)           { Sl = append(Sl, v) }
 
+func itoa(n int) string {
+	if n == 0 {
+		return "0"
+	}
+	s := ""
+	for ; n > 0; n /= 10 {
+		s = string(rune('0'+n%10)) + s
+	}
+	return s
+}
+
 func Snapshot() string {
 	ref := 0
 	if S.Ref != nil {
 		ref = *S.Ref
 	}
-	return strconv.Itoa(Counter) + "," + strconv.Itoa(S.F) + "," + strconv.Itoa(ref) + "," + strconv.Itoa(V.F) + "," +
-		strconv.Itoa(len(M)) + ":" + strconv.Itoa(M["k"]) + "," + strconv.Itoa(len(Sl)) + ":" + strconv.Itoa(Sl[0]) + ":" + strconv.Itoa(Sl[1]) + "," +
-		strconv.Itoa(Arr[0]) + "," + strconv.Itoa(Fn())
+	return itoa(Counter) + "," + itoa(S.F) + "," + itoa(ref) + "," + itoa(V.F) + "," +
+		itoa(len(M)) + ":" + itoa(M["k"]) + "," + itoa(len(Sl)) + ":" + itoa(Sl[0]) + ":" + itoa(Sl[1]) + "," +
+		itoa(Arr[0]) + "," + itoa(Fn())
 }
 `
 
